@@ -2208,6 +2208,8 @@ def fixup_or_check_asymmetric_weights(force_symmetric_int_weights):
 def convert_squared_difference(op, arch, nng):
     if op.type == Op.SquaredDifference and op.run_on_npu:
         ifm, ifm2, ofm = op.get_ifm_ifm2_ofm()
+        # The shape of the op can differ from that of its OFM tensor (a bypassed reshape)
+        ofm_shape = op.ofm_shapes[0]
 
         identity_quant = QuantizationParameters(scale_f32=1.0, zero_point=0)
 
@@ -2283,6 +2285,7 @@ def convert_squared_difference(op, arch, nng):
         # Calculate the raw diff
         # (the difference has the shape of the OFM: an input can be a smaller tensor that is broadcast)
         raw_diff = ofm.clone(suffix="_raw_diff", set_unique=True)
+        raw_diff.set_all_shapes(ofm_shape.as_list())
         raw_diff.dtype = DataType.int32
         raw_diff.quantization = None
         sub_op = Operation(Op.Sub, op.name + "_raw_diff")
@@ -2294,6 +2297,7 @@ def convert_squared_difference(op, arch, nng):
 
         # Calculate the squared diff
         squared_raw = ofm.clone(suffix="_squared_raw", set_unique=True)
+        squared_raw.set_all_shapes(ofm_shape.as_list())
         squared_raw.dtype = DataType.int32
         squared_raw.quantization = None
         mul_op = Operation(Op.Mul, op.name + "_squared_raw")
@@ -2310,6 +2314,7 @@ def convert_squared_difference(op, arch, nng):
         # Use explicit scaling for the shift (multiplier not actually used for int32, but value can not be empty)
         op.explicit_scaling = ExplicitScaling(False, [output_shift], [output_multiplier])
         op.set_ifm_ofm_shapes()
+        op.ofm_shapes[0] = ofm_shape
         DebugDatabase.add_optimised(op, op)
 
     return op
